@@ -48,6 +48,8 @@ def main():
         sh(["git", "-C", REPO, "checkout", "--", "."])
         # the evidence / replay files written while the change was applied describe the changed tree: drop the replays
         shutil.rmtree(os.path.join(ROOT, "replays"), ignore_errors=True)
+        # ... and the generated Coq files were regenerated from the changed tree: put back the ones generated from /repo (committed)
+        sh(["git", "-C", ROOT, "checkout", "--", "coq/Generated"])
     res["caught_by"] = sorted(k for k, v in res["checks"].items() if v["exit"] != 0 and any(l.startswith("VIOLATION") for l in v["lines"]))
     json.dump(res, open(os.path.join(dst, "result.json"), "w"), indent=1)
     print("demo unchanged exit", rc0, "changed exit", res["demo_on_changed"]["exit"], "caught by", res["caught_by"])
